@@ -621,38 +621,50 @@ func (c *checker) enumerate(alpha []Beh, length int, mk func(script []Beh) Spec)
 
 func (c *checker) partC() {
 	r := c.r
-	alpha := []Beh{st(200), st(503), st(429), st(404), st(302), {Kind: "hang"}, {Kind: "policy"}}
-	maxes := []int{1, 2}
-	stores := []string{"memory", "memory-noret", "sqlite"}
-	us := []float64{0}
+	small := []Beh{st(200), st(503), st(429), st(404), st(302), {Kind: "hang"}, {Kind: "policy"}}
+	large := []Beh{st(200), st(204), st(500), st(503), st(429), st(408), st(404), st(400), st(302), st(100), {Kind: "hang"}, {Kind: "transport"}, {Kind: "policy"}}
+	u1 := math.Nextafter(1, 0)
+	type job struct {
+		store string
+		alpha []Beh
+		maxes []int
+		us    []float64
+	}
+	jobs := []job{
+		{"memory", small, []int{1, 2}, []float64{0}},
+		{"memory-noret", small, []int{1, 2}, []float64{0}},
+		{"sqlite", small, []int{1, 2}, []float64{0}},
+	}
 	if r.Thorough() {
-		alpha = []Beh{st(200), st(204), st(500), st(503), st(429), st(408), st(404), st(400), st(302), st(100), {Kind: "hang"}, {Kind: "transport"}, {Kind: "policy"}}
-		maxes = []int{1, 2, 3}
-		stores = []string{"memory", "memory-noret", "memory-nobatch", "sqlite", "sqlite-noret"}
-		us = []float64{0, 0.5, math.Nextafter(1, 0)}
+		jobs = []job{
+			{"memory", large, []int{1, 2, 3}, []float64{0, 0.5, u1}},
+			{"memory-noret", large, []int{1, 2, 3}, []float64{0}},
+			{"memory-nobatch", large, []int{1, 2, 3}, []float64{u1}},
+			{"sqlite", large, []int{1, 2}, []float64{0}},
+			{"sqlite", small, []int{3}, []float64{0.5}},
+			{"sqlite-noret", small, []int{1, 2}, []float64{u1}},
+		}
 	}
 	tgt := func(path string, max int) Tgt {
 		return Tgt{Path: path, Max: strconv.Itoa(max), Base: "100ms", Cap: "250ms", Jitter: "0.2", Timeout: "1s"}
 	}
 	eff := map[int][][]Beh{}
 	// single target, one worker, one message; without and with one DLQ requeue
-	for _, max := range maxes {
-		for _, store := range stores {
-			for _, u := range us {
-				if store != "memory" && u != us[0] {
-					continue
-				}
+	for ji, j := range jobs {
+		for _, max := range j.maxes {
+			for ui, u := range j.us {
 				for _, requeue := range []int{0, 1} {
 					tg := tgt("/hook", max)
 					length := max + 2 + requeue
-					e := c.enumerate(alpha, length, func(script []Beh) Spec {
-						return Spec{Part: "c", Store: store, Targets: []Tgt{tg}, Conc: 1, HTTP: true, U: u, Requeue: requeue,
+					e := c.enumerate(j.alpha, length, func(script []Beh) Spec {
+						return Spec{Part: "c", Store: j.store, Targets: []Tgt{tg}, Conc: 1, HTTP: true, U: u, Requeue: requeue,
 							Msgs: []Msg{{ID: "m", Target: tg.URL(), Script: script}}}
 					})
-					if store == "memory" && u == us[0] && requeue == 0 {
+					if ji == 0 && ui == 0 && requeue == 0 {
 						eff[max] = e
 					}
 					r.Add("c_distinct_single_histories", int64(len(e)))
+					r.Add("c_distinct_single_histories_"+j.store, int64(len(e)))
 				}
 			}
 		}
